@@ -58,7 +58,7 @@ def check_backward(ctx: Ctx):
     chunk = rng.choice([None, 1, 2, m + 1])
     pre = rand_pre(rng, P, P.leaves())
     report = P.leaves()
-    for dtype in (torch.float64, torch.float32):
+    for dtype in ((torch.float64,) if P.big else (torch.float64, torch.float32)):
         rerr, rg, _ = real_backward(P, dtype, tensors, inputs, agg, chunk, False, pre, report)
         # twin graph driven by torch.autograd
         ts = P.build(dtype)
@@ -121,6 +121,61 @@ def check_mtl(ctx: Ctx):
                       {"api": "mtl_backward", "program": P.describe(), "prog_sx": sx(P.to_sx()), "losses": M.losses,
                        "features": M.features, "tasks": tasks, "shared": shared, "agg": str(agg), "chunk": chunk,
                        "pre": fmt_grads(pre), "torchjd": fmt_grads(rg), "torch_autograd": fmt_grads(tg)})
+
+
+def check_mean_any_m(ctx: Ctx):
+    """Mean() with a number of rows that is not a power of two: 1/m is not a binary fraction, so the comparison is no
+    longer exact; the allowance is the rounding of the m-term sums in the working precision (nothing coarser)"""
+    rng = ctx.rng
+    for _ in range(8):
+        P = random_program(rng)
+        cands = differentiable_nonleaves(P)
+        tensors = rng.sample(cands, min(len(cands), rng.choice([1, 2, 3])))
+        m = sum(numel(P.nodes[t].shape) for t in tensors)
+        if m not in (1, 2, 4, 8, 16, 32) and m <= 24 and not P.casts:
+            break       # (with a cast on the way the twin's cotangent 1/m would itself pass through single precision)
+    else:
+        return
+    good = [i for i in P.leaves() if P.nodes[i].rg]
+    inputs = list(good)
+    chunk = rng.choice([None, 1, 2, m + 1])
+    pre = rand_pre(rng, P, P.leaves())
+    report = P.leaves()
+    none_pre = {k: None for k in report}
+    merr, mg, _ = model_backward(ctx.driver, P, tensors, inputs, ("mean",), chunk, False, pre, report)
+    if merr is not None:
+        return
+    absJ = {k: [Fraction(0)] * numel(P.nodes[k].shape) for k in report}
+    for i in range(m):
+        _, row, _ = model_backward(ctx.driver, P, tensors, inputs, ("const", [int(j == i) for j in range(m)]), None, False,
+                                   none_pre, report)
+        for k, v in canon(row, P).items():
+            absJ[k] = [a + abs(b) for a, b in zip(absJ[k], v)]
+    mg = canon(mg, P)
+    for dtype in ((torch.float64,) if P.big else (torch.float64, torch.float32)):
+        uu = Fraction(float(torch.finfo(dtype).eps))
+        rerr, rg, _ = real_backward(P, dtype, tensors, inputs, ("mean",), chunk, False, pre, report)
+        ts = P.build(dtype)
+        set_pre(P, ts, pre, dtype)
+        torch.autograd.backward([ts[t] for t in tensors], grad_tensors=split_w(P, tensors, [1.0 / m] * m, dtype),
+                                inputs=[ts[i] for i in inputs])
+        tg = canon(grads_of(ts, report), P)
+        ctx.case(("bw-mean", tuple(P.describe()), sx([tensors, chunk or "None"]), str(dtype)), nontrivial=rerr is None)
+        ctx.count("mean_rows_not_power_of_two", m)
+        rp = {"api": "backward", "program": P.describe(), "prog_sx": sx(P.to_sx()), "tensors": tensors, "inputs": inputs,
+              "agg": "Mean()", "rows": m, "chunk": chunk, "dtype": str(dtype), "pre": fmt_grads(pre)}
+        if rerr is not None:
+            ctx.violation(f"backward with Mean() over {m} rows raised {rerr}", rp)
+            return
+        rgc = canon(rg, P)
+        for k in report:
+            for j, (a, b, c) in enumerate(zip(rgc[k], mg[k], tg[k])):
+                tol = 8 * uu * (absJ[k][j] / m * (m + 2) + abs(Fraction(pre[k][j]) if pre.get(k) is not None else 0))
+                if abs(a - b) > tol or abs(a - c) > 2 * tol:
+                    ctx.violation(f"backward with Mean() over {m} rows leaves {float(a)!r} in leaf {k}[{j}]; the gradient of the "
+                                  f"mean of the outputs is {float(b)!r} (torch.autograd on the twin: {float(c)!r}); allowance "
+                                  f"{float(tol):.3e}", {**rp, "torchjd": fmt_grads(rg)})
+                    return
 
 
 def smooth_graph(rng, dtype=torch.float64):
@@ -187,6 +242,7 @@ def main(ctx: Ctx):
             check_mtl(ctx)
         if i % 3 == 0:
             check_smooth(ctx)
+            check_mean_any_m(ctx)
     return ctx.finish(
         rule="twin graphs: every P-int program is built twice from the same leaf values; one copy is driven by "
              "torchjd backward/mtl_backward with Constant(w) (negative and zero weights) / Sum / Mean, the twin by "
